@@ -41,6 +41,24 @@ CHECKS['C04'] = dict(
          'expressions and schedula DispatchPipe of _range2parts (spelling -> numbers); non-ASCII upper-casing.',
     technique='Lean 4 proof of a hand-written model + differential correspondence check against the implementation')
 
+CHECKS['C20'] = dict(
+    text=('Lean 4 theorems (XL.Props.C20) for every input, not by enumeration: date_roundtrip — DATE(YEAR,MONTH,DAY) '
+          'of every serial 0..2958465 is the serial (civil-from-days/days-from-civil proved inverse for all day '
+          'numbers by omega, the Excel layer with the fictitious 1900-02-29 and day 0 unfolded on top); '
+          'date_special, date_out_of_range; weekday_succ / weekday_succ_mode3 / weekday_bad_mode for all serials and '
+          'all 10 modes; x2dec_dec2x for every integer of the two\'s-complement range of each base, with the masks '
+          'generated from the source (masks); dec2x_out_of_range; roman_arabic for all 4000 x 5 arguments by kernel '
+          'evaluation (decide +kernel) over the numeral tables generated from the source. The model is compared with '
+          'the implementation on boundary and random serials (thorough: every serial on 16 workers), overflowing DATE '
+          'arguments, all binary values, sampled octal/hex values, malformed digit strings and all ROMAN arguments; '
+          'dates are additionally compared with CPython datetime. TIME/HOUR/MINUTE/SECOND are floating point: they '
+          'are enumerated on the implementation (every 7th second quick, all 86400 thorough), which is a test, not a proof.'),
+    design='DESIGN.md §3 C20',
+    note=COMMON_NOTE + 'datetime/calendar are external: modelled by a concrete proleptic-Gregorian pair and tied by '
+         'correspondence. The TIME sub-claim is partial (enumeration only). Python recursion depth of _date is '
+         'modelled by a fuel constant (overflowing days beyond ~900 months are #VALUE! in both).',
+    technique='Lean 4 proof (omega, induction, decide +kernel over generated tables) + differential correspondence check')
+
 NOT_YET = {
 }
 
